@@ -171,7 +171,7 @@ def instances(r):
         out.append(pair("shift", "alignment.percentage_correct_segments", (ar, ae),
                         (ar + d, ae + d), {}, "shift %r" % d, nta))
     # patterns: onset shift, reference-list permutation
-    p = tasks.gen_pattern(r)
+    p = tasks.gen_pattern(r) if r.random() < 0.7 else tasks.gen_pattern_doubled(r)
     if p["ref"] and p["est"]:
         dq = r.choice([0.25, 1.0, 16.0, 1024.0])
         def sh(pats):
